@@ -155,14 +155,15 @@ def find_fns(mod, t, lines, pairs):
 # guards
 # ---------------------------------------------------------------------------------------------
 
-def classify_cond(c):
-    """condition tokens -> (lit, anyOver) or None if the condition does not mention privacy, or raises"""
+def classify_cond(c, by_value=False):
+    """condition tokens -> (lit, anyOver) or None if the condition does not mention privacy, or raises;
+    `by_value`: the closure parameter was destructured (`|&ttl|`), so the element is `Some(ttl)`, not `Some(*ttl)`"""
     s = ' '.join(c)
     if 'privacy_max_ttl' not in s:
         return None
     P = r'(?:[a-z_]+ \. )*privacy_max_ttl'
     HT = r'Some \( ([a-z_]+) \. ttl \( \) \)'
-    HS = r'Some \( \* ([a-z_]+) \)'
+    HS = r'Some \( ([a-z_]+) \)' if by_value else r'Some \( \* ([a-z_]+) \)'
     # the four spellings of each comparison (Rust's `Option` order is total: `a >= b` is `b <= a`, and the
     # negation of `a >= b` is `a < b`); a leading `!` marks the negated literal
     for h, lit_ge in ((HT, 'geSome'), (HS, '!someGt')):
@@ -179,9 +180,15 @@ def classify_cond(c):
     m = re.fullmatch(P + r' \. is_none \( \)', s)
     if m:
         return ('!isSome', False, None)
-    m = re.fullmatch(r'[a-z_]+ (?:\. [a-z_]+ )*\. iter \( \) \. any \( \| ([a-z_]+) \| (.*) \)', s)
+    m = re.fullmatch(r'[a-z_]+ (?:\. [a-z_]+ )*\. iter \( \) \. any \( \| (& )?([a-z_]+) \| (.*) \)', s)
     if m:
-        inner = classify_cond(m.group(2).split(' '))
+        inner = classify_cond(m.group(3).split(' '), by_value=bool(m.group(1)))
+        if inner and inner[0] == 'someGt' and inner[2] == m.group(2):
+            return ('someGt', True, m.group(2))
+    # `.iter().copied().any(|ttl| …)`: elements by value as well
+    m = re.fullmatch(r'[a-z_]+ (?:\. [a-z_]+ )*\. iter \( \) \. (?:copied|cloned) \( \) \. any \( \| ([a-z_]+) \| (.*) \)', s)
+    if m:
+        inner = classify_cond(m.group(2).split(' '), by_value=True)
         if inner and inner[0] == 'someGt' and inner[2] == m.group(1):
             return ('someGt', True, m.group(1))
     raise Unsupported(f'privacy condition of unknown shape: `{s}`')
@@ -194,11 +201,15 @@ class Body:
         self.blocks = {}     # open-brace index -> dict(kind, cond=(a,b), prior=[conds])
         # boolean aliases: let NAME = <cond mentioning privacy> ;
         self.alias = {}
+        # value aliases: let NAME = <path> . privacy_max_ttl ;   (the option itself under another name; never `mut`)
+        self.valias = set()
         i = fn.start
         while i < fn.end:
             if t[i] == 'let' and re.match(r'^[a-z_]+$', t[i + 1]) and t[i + 2] == '=':
                 j = self.stmt_end(i)
                 init = t[i + 3:j]
+                if re.fullmatch(r'(?:& )?(?:[a-z_]+ \. )+privacy_max_ttl', ' '.join(init)) and t[i + 1] != 'privacy_max_ttl':
+                    self.valias.add(t[i + 1])
                 if 'privacy_max_ttl' in init and 'if' not in init and 'match' not in init:
                     try:
                         c = classify_cond(init)
@@ -207,6 +218,25 @@ class Body:
                     except Unsupported:
                         pass   # not a boolean guard (e.g. a formatted value); reported only if used as a guard
             i += 1
+        # two passes: first the value aliases (substituted in place within this function's tokens, so that every
+        # later step sees the option's own name), then the boolean aliases
+        if self.valias:
+            for k in range(fn.start, fn.end):
+                if t[k] in self.valias and t[k - 1] != '.' and t[k + 1] not in (':', '('):
+                    t[k] = 'privacy_max_ttl'
+            i = fn.start
+            while i < fn.end:
+                if t[i] == 'let' and re.match(r'^[a-z_]+$', t[i + 1]) and t[i + 2] == '=':
+                    j = self.stmt_end(i)
+                    init = t[i + 3:j]
+                    if 'privacy_max_ttl' in init and 'if' not in init and 'match' not in init and t[i + 1] not in self.alias:
+                        try:
+                            c = classify_cond(init)
+                            if c:
+                                self.alias[t[i + 1]] = (c, fn.lines[i])
+                        except Unsupported:
+                            pass
+                i += 1
         for i in range(fn.start, fn.end):
             if t[i] == '{':
                 self.blocks[i] = self.block_ctx(i)
@@ -266,13 +296,25 @@ class Body:
         neg = False
         if c and c[0] == '!':
             c, neg = c[1:], True
-        c = self.inline_predicate(c)
+        c = self.inline_predicate(self.subst_value_aliases(c))
         lit = classify_cond(c)
         if lit is not None and neg:
             lit = (lit[0][1:] if lit[0].startswith('!') else '!' + lit[0], lit[1], lit[2])
         return lit
 
     ALL_FNS = {}
+
+    def subst_value_aliases(self, c):
+        """a local that merely names the option (`let limit = app.tui_config.privacy_max_ttl;`) reads as the option"""
+        if not self.valias:
+            return c
+        out = []
+        for k, x in enumerate(c):
+            if x in self.valias and (k == 0 or c[k - 1] != '.') and not (k + 1 < len(c) and c[k + 1] in (':', '(')):
+                out.append('privacy_max_ttl')
+            else:
+                out.append(x)
+        return out
 
     def inline_predicate(self, c):
         """`helper(args)` where `helper` is a function of the same file whose body is one expression:
